@@ -12,11 +12,12 @@ from sim.core import open_reader, Rejected, SimLivelock, Violation
 from sim.disk import SimDisk
 
 ID = "C07"
+VARY_WRITE_CAP = True  # W4: partial raw data writes (sim.disk)
 VARY_KNOBS = True  # module-level tuning constants of the library are lowered in some runs (sim.core.lower_tuning_constants)
 VARY_ARGFORM = True  # integer call arguments also arrive as numpy integer scalars
 GUARD_KERNELS = True
 SHRINK_LISTS = ("ops", "faults", "pre", ("files", "nsamps"))
-SHRINK_SIMPLE = {"knobs": None, "earlier": None, "argform": "int", "stale": None}
+SHRINK_SIMPLE = {"write_cap": None, "knobs": None, "earlier": None, "argform": "int", "stale": None}
 SHRINK_MIN = {"nchans": 1, "nbits": 1, "gulp": 1, "tfactor": 1, "ffactor": 1, "nsub": 1, "batch_size": 1, "chanpersub": 2, "nchans_b": 2}
 
 
